@@ -59,6 +59,7 @@ type Conn struct {
 	// Read state.
 	readMu         *mu
 	closeReceived  error // The CloseError of the peer's close frame. Guarded by readMu.
+	readDiscarding bool  // The close handshake is discarding what arrives. Guarded by readMu.
 	readHeaderBuf  [8]byte
 	readControlBuf [maxControlPayload]byte
 	msgReader      *msgReader
